@@ -137,6 +137,8 @@ type NativeState struct {
 	ret     Value
 	forced  bool
 	resT    types.Type
+	sl      *SliceV // sortslice: the slice being sorted
+	j       int
 }
 
 type NondetRec struct {
@@ -161,6 +163,7 @@ type State struct {
 	stuck        int
 	preemptLeft  int
 	switchNow    bool
+	switchTo     int
 	syncInt      map[string]int // WaitGroup counters, mutex states, once flags, keyed by object+path
 	pools        map[string][]Value
 	fixedIdx     int               // concrete re-execution: index of the next fixed nondet value
